@@ -469,4 +469,515 @@ theorem monitor_fires {d : ToolD} {ci : CallIn} {o : Obs} {c : Clause}
         | some c' => simp only [hd, Option.some.injEq] at h; subst h; exact .inl (monDiag_fires hd)
         | none => simp only [hd] at h; exact .inr (monContract_fires h)
 
+/-! ## soundness -/
+
+theorem sameObs_split {o io : Obs} (hne : sameObs o io = false) (hs : sameObs { o with seen := io.seen } io = true) :
+    o.inv = io.inv ∧ optCeq o.seen io.seen = false := by
+  simp only [sameObs, Bool.and_eq_true, beq_iff_eq] at hs
+  obtain ⟨⟨⟨⟨h1, _⟩, h3⟩, h4⟩, h5⟩ := hs
+  refine ⟨h1, ?_⟩
+  cases hq : optCeq o.seen io.seen with
+  | false => rfl
+  | true =>
+    have : sameObs o io = true := by
+      simp only [sameObs, Bool.and_eq_true, beq_iff_eq]
+      exact ⟨⟨⟨⟨h1, hq⟩, h3⟩, h4⟩, h5⟩
+    rw [this] at hne; cases hne
+
+theorem io_of_valid {d : ToolD} {ci : CallIn} {y : JVal} (he : ideal d ci = demanded d y (ci.h y)) :
+    (io d ci).inv = some true ∧ (io d ci).seen = some y := by
+  simp [io, obsOf, he, demanded_seen]
+
+theorem io_of_invalid {d : ToolD} {ci : CallIn} (he : ideal d ci = errorOutcome none) :
+    (io d ci).inv = some false ∧ (io d ci).seen = none ∧ (io d ci).res = .toolerr ∧ (io d ci).sc = none ∧
+    (io d ci).content = [.err] := by
+  simp [io, obsOf, he, errorOutcome, resOf, btokOf]
+
+/-- the handler's observed input is not what the property demands, whenever it differs from the ideal one -/
+theorem seen_mismatch {d : ToolD} {ci : CallIn} {o : Obs}
+    (hi : o.inv = (io d ci).inv) (hs : optCeq o.seen (io d ci).seen = false) : ¬ P_receives_exactly d ci o := by
+  intro hP
+  rcases ideal_cases d ci with ⟨y, hy, he⟩ | ⟨_, he⟩
+  · obtain ⟨h1, h2⟩ := io_of_valid he
+    obtain ⟨x, y', hx, hy', hj⟩ := hP.1 (hi.trans h1)
+    have := HandlerInput_unique hy hy'
+    subst this
+    rw [hx, h2] at hs
+    simp only [optCeq, ceq_of_JEq hj] at hs
+    cases hs
+  · obtain ⟨h1, h2, _⟩ := io_of_invalid he
+    have := hP.2 (hi.trans h1)
+    rw [this, h2] at hs
+    cases hs
+
+/-- C16/F12 and "the typed tool wrapper panicked" -/
+theorem sound_f12Panic (d : ToolD) (ci : CallIn) (o : Obs) (h : monitor d ci o = some .f12Panic) : ¬ P_no_crash o := by
+  rcases monitor_fires h with ⟨hp, _⟩ | ⟨hc, _⟩ | ⟨_, _, hd | hc⟩
+  · exact fun hP => hP hp
+  · cases hc
+  · exact hd.elim
+  · exact hc.elim
+
+theorem sound_panicked (d : ToolD) (ci : CallIn) (o : Obs) (h : monitor d ci o = some .panicked) : ¬ P_no_crash o := by
+  rcases monitor_fires h with ⟨hp, _⟩ | ⟨hc, _⟩ | ⟨_, _, hd | hc⟩
+  · exact fun hP => hP hp
+  · cases hc
+  · exact hd.elim
+  · exact hc.elim
+
+/-- C16/F16 -/
+theorem sound_f16 (d : ToolD) (ci : CallIn) (o : Obs) (h : monitor d ci o = some .f16) : ¬ P_success_has_structured d o := by
+  rcases monitor_fires h with ⟨_, hc | hc⟩ | ⟨_, h1, h2, h3⟩ | ⟨_, _, hd | hc⟩
+  · cases hc
+  · cases hc
+  · intro hP
+    have := hP h1 h2
+    rw [h3] at this; cases this
+  · exact hd.elim
+  · exact hc.elim
+
+/-- C16/F12, null arguments seen as null -/
+theorem sound_f12NullSeen (d : ToolD) (ci : CallIn) (o : Obs) (h : monitor d ci o = some .f12NullSeen) :
+    ¬ P_receives_exactly d ci o := by
+  rcases monitor_fires h with ⟨_, hc | hc⟩ | ⟨hc, _⟩ | ⟨_, hne, hd | hc⟩
+  · cases hc
+  · cases hc
+  · cases hc
+  · obtain ⟨h1, h2⟩ := sameObs_split hne hd
+    exact seen_mismatch h1 h2
+  · exact hc.elim
+
+/-- handler_receives_exact_integers -/
+theorem sound_recvExact (d : ToolD) (ci : CallIn) (o : Obs) (p : String) (a b : Dec)
+    (h : monitor d ci o = some (.recvExact p a b)) : ¬ P_receives_exactly d ci o := by
+  rcases monitor_fires h with ⟨_, hc | hc⟩ | ⟨hc, _⟩ | ⟨_, _, hd | hc⟩
+  · cases hc
+  · cases hc
+  · cases hc
+  · obtain ⟨h1, h2, h3, _⟩ := hd
+    exact seen_mismatch (h1.trans h2.symm) h3
+  · exact hc.elim
+
+/-- handler_sees_exactly_validated_members -/
+theorem sound_members (d : ToolD) (ci : CallIn) (o : Obs) (p : String)
+    (h : monitor d ci o = some (.members p)) : ¬ P_receives_exactly d ci o := by
+  rcases monitor_fires h with ⟨_, hc | hc⟩ | ⟨hc, _⟩ | ⟨_, _, hd | hc⟩
+  · cases hc
+  · cases hc
+  · cases hc
+  · exact hd.elim
+  · exact seen_mismatch hc.1 hc.2
+
+/-- handler_sees_defaulted_args -/
+theorem sound_seesDefaulted (d : ToolD) (ci : CallIn) (o : Obs)
+    (h : monitor d ci o = some .seesDefaulted) : ¬ P_receives_exactly d ci o := by
+  rcases monitor_fires h with ⟨_, hc | hc⟩ | ⟨hc, _⟩ | ⟨_, _, hd | hc⟩
+  · cases hc
+  · cases hc
+  · cases hc
+  · exact hd.elim
+  · exact seen_mismatch hc.1 hc.2
+
+/-- invoked_iff_valid_after_defaults: valid, not invoked -/
+theorem sound_notInvoked (d : ToolD) (ci : CallIn) (o : Obs)
+    (h : monitor d ci o = some .notInvoked) : ¬ P_valid_is_invoked d ci o := by
+  rcases monitor_fires h with ⟨_, hc | hc⟩ | ⟨hc, _⟩ | ⟨_, _, hd | hc⟩
+  · cases hc
+  · cases hc
+  · cases hc
+  · exact hd.elim
+  · intro hP
+    obtain ⟨h1, h2⟩ := hc
+    exact h2 ((hP ((io_inv_true_iff d ci).1 h1)).trans h1.symm)
+
+/-- invoked_iff_valid_after_defaults: valid, refused as by a signed-only decode -/
+theorem sound_u64Refused (d : ToolD) (ci : CallIn) (o : Obs)
+    (h : monitor d ci o = some .u64Refused) : ¬ P_valid_is_invoked d ci o := by
+  rcases monitor_fires h with ⟨_, hc | hc⟩ | ⟨hc, _⟩ | ⟨_, _, hd | hc⟩
+  · cases hc
+  · cases hc
+  · cases hc
+  · intro hP
+    obtain ⟨h1, h2⟩ := hd
+    have := hP ((io_inv_true_iff d ci).1 h1)
+    rw [h2] at this; cases this
+  · exact hc.elim
+
+/-- invoked_iff_valid_after_defaults: ran on invalid arguments -/
+theorem sound_invokedInvalid (d : ToolD) (ci : CallIn) (o : Obs)
+    (h : monitor d ci o = some .invokedInvalid) : ¬ P_invoked_only_if_valid d ci o := by
+  rcases monitor_fires h with ⟨_, hc | hc⟩ | ⟨hc, _⟩ | ⟨_, _, hd | hc⟩
+  · cases hc
+  · cases hc
+  · cases hc
+  · exact hd.elim
+  · intro hP
+    obtain ⟨h1, h2⟩ := hc
+    have hf := io_inv_ne_true d ci h1
+    have hv := hP (by rw [hf] at h2; exact h2)
+    exact (io_inv_false_iff d ci).1 hf hv
+
+/-- invalid_gives_tool_error_without_invocation -/
+theorem sound_invalidNoToolErr (d : ToolD) (ci : CallIn) (o : Obs)
+    (h : monitor d ci o = some .invalidNoToolErr) : ¬ P_invalid_gives_tool_error d ci o := by
+  rcases monitor_fires h with ⟨_, hc | hc⟩ | ⟨hc, _⟩ | ⟨_, _, hd | hc⟩
+  · cases hc
+  · cases hc
+  · cases hc
+  · exact hd.elim
+  · intro hP
+    obtain ⟨h1, h2⟩ := hc
+    obtain ⟨p1, p2, p3⟩ := hP ((io_inv_false_iff d ci).1 h1)
+    rcases h2 with h2 | h2 | h2
+    · exact h2 p1
+    · exact p2 h2
+    · rw [p3] at h2; cases h2
+
+/-- the result side of the chain is reached either on a valid call (the ideal outcome is the demanded one)
+or on an invalid one that was answered by a proper error -/
+theorem result_side {d : ToolD} {ci : CallIn} {o : Obs}
+    (hn : ¬ ((io d ci).inv = some false ∧ BadErrorAnswer o)) :
+    (∃ y, HandlerInput d ci y ∧ ideal d ci = demanded d y (ci.h y)) ∨
+    (ideal d ci = errorOutcome none ∧ o.res = .toolerr ∧ o.sc = none) := by
+  rcases ideal_cases d ci with h | ⟨_, he⟩
+  · exact .inl h
+  · refine .inr ⟨he, ?_⟩
+    have h1 := (io_of_invalid he).1
+    have nb : ¬ BadErrorAnswer o := fun hb => hn ⟨h1, hb⟩
+    unfold BadErrorAnswer at nb
+    constructor
+    · exact Classical.byContradiction fun hc => nb (.inl hc)
+    · cases hs : o.sc with
+      | none => rfl
+      | some v => exact absurd (.inr (.inr (by simp [hs]))) nb
+
+theorem demanded_kind_ok {d : ToolD} {y : JVal} {r : HRet} (h : (demanded d y r).kind = .ok) :
+    r.err = none ∧ (∀ j, handlerJson d r.out = some j → outputOk d j = true) ∧
+    (demanded d y r).structured = expectSc d r.out ∧
+    (demanded d y r).content.map btokOf = expectContent r.content (expectSc d r.out) := by
+  unfold demanded at h ⊢
+  cases he : r.err with
+  | some e => cases e <;> simp [he] at h
+  | none =>
+    simp only [he] at h ⊢
+    cases hj : handlerJson d r.out with
+    | none => simp [expectSc, expectContent, hj]
+    | some j =>
+      simp only [hj] at h ⊢
+      cases ho : outputOk d j with
+      | false => simp [ho] at h
+      | true => simp [expectSc, expectContent, hj, ho]
+
+theorem demanded_kind_not_ok {d : ToolD} {y : JVal} {r : HRet} (h : (demanded d y r).kind ≠ .ok) :
+    (demanded d y r).structured = none ∧
+    ((r.err = some .rpc ∧ (demanded d y r).kind = .rpcError) ∨ (r.err = some .plain ∧ (demanded d y r).kind = .toolError) ∨
+     (r.err = none ∧ (demanded d y r).kind = .rpcError ∧ ∃ j, handlerJson d r.out = some j ∧ outputOk d j = false)) := by
+  unfold demanded at h ⊢
+  cases he : r.err with
+  | some e => cases e <;> simp
+  | none =>
+    simp only [he] at h ⊢
+    cases hj : handlerJson d r.out with
+    | none => simp [hj] at h
+    | some j =>
+      simp only [hj] at h ⊢
+      cases ho : outputOk d j with
+      | false => simp [ho]
+      | true => simp [ho] at h
+
+/-- invalid_output_is_error_not_result -/
+theorem sound_invalidOutReturned (d : ToolD) (ci : CallIn) (o : Obs) (hsc : ci.Scripted)
+    (h : monitor d ci o = some .invalidOutReturned) : ¬ P_invalid_output_is_error d ci o := by
+  rcases monitor_fires h with ⟨_, hc | hc⟩ | ⟨hc, _⟩ | ⟨_, _, hd | hc⟩
+  · cases hc
+  · cases hc
+  · cases hc
+  · exact hd.elim
+  · intro hP
+    obtain ⟨_, hn, h1, h2, h3⟩ := hc
+    rcases result_side hn with ⟨y, hy, he⟩ | ⟨he, _⟩
+    · have hk : (demanded d y (ci.h y)).kind ≠ .ok := by
+        intro hk
+        simp only [io, obsOf, he, hk, resOf] at h1
+        cases h1
+      obtain ⟨_, hcases⟩ := demanded_kind_not_ok hk
+      rw [← hsc y] at h2
+      rcases hcases with ⟨e, _⟩ | ⟨e, _⟩ | ⟨_, _, j, hj, ho⟩
+      · rw [h2] at e; cases e
+      · rw [h2] at e; cases e
+      · exact hP y j hy h2 hj ho h3
+    · have := (io_of_invalid he).2.2.1
+      rw [h1] at this; cases this
+
+/-- structured_valid: schema-valid output not returned as a success -/
+theorem sound_validOutRefused (d : ToolD) (ci : CallIn) (o : Obs)
+    (h : monitor d ci o = some .validOutRefused) : ¬ P_valid_output_succeeds d ci o := by
+  rcases monitor_fires h with ⟨_, hc | hc⟩ | ⟨hc, _⟩ | ⟨_, _, hd | hc⟩
+  · cases hc
+  · cases hc
+  · cases hc
+  · exact hd.elim
+  · intro hP
+    obtain ⟨_, hn, h1, h2⟩ := hc
+    rcases result_side hn with ⟨y, hy, he⟩ | ⟨he, _⟩
+    · have hk : (demanded d y (ci.h y)).kind = .ok := by
+        simp only [io, obsOf, he] at h1
+        exact resOf_eq_ok h1
+      obtain ⟨e, ho, _⟩ := demanded_kind_ok hk
+      exact h2 (hP y hy e ho)
+    · have := (io_of_invalid he).2.2.1
+      rw [h1] at this; cases this
+
+/-- "result kind differs from the wrapper's contract" -/
+theorem sound_kindDiffers (d : ToolD) (ci : CallIn) (o : Obs)
+    (h : monitor d ci o = some .kindDiffers) : ¬ P_error_kinds d ci o := by
+  rcases monitor_fires h with ⟨_, hc | hc⟩ | ⟨hc, _⟩ | ⟨_, _, hd | hc⟩
+  · cases hc
+  · cases hc
+  · cases hc
+  · exact hd.elim
+  · intro hP
+    obtain ⟨_, hn, h1, h2⟩ := hc
+    rcases result_side hn with ⟨y, hy, he⟩ | ⟨he, hr, _⟩
+    · have hk : (demanded d y (ci.h y)).kind ≠ .ok := by
+        intro hk
+        apply h2
+        simp only [io, obsOf, he, hk, resOf]
+      obtain ⟨_, hcases⟩ := demanded_kind_not_ok hk
+      obtain ⟨p1, p2, p3⟩ := hP y hy
+      apply h1
+      simp only [io, obsOf, he]
+      rcases hcases with ⟨e, k⟩ | ⟨e, k⟩ | ⟨e, k, j, hj, ho⟩
+      · rw [k, p1 e]; rfl
+      · rw [k, p2 e]; rfl
+      · rw [k, p3 e j hj ho]; rfl
+    · exact h1 (hr.trans (io_of_invalid he).2.2.1.symm)
+
+theorem sc_mismatch {d : ToolD} {ci : CallIn} {o : Obs}
+    (hside : (∃ y, HandlerInput d ci y ∧ ideal d ci = demanded d y (ci.h y)) ∨ (ideal d ci = errorOutcome none ∧ o.res = .toolerr ∧ o.sc = none))
+    (hr : o.res = (io d ci).res) (hs : optCeq o.sc (io d ci).sc = false) : ¬ P_structured_equals d ci o := by
+  intro hP
+  rcases hside with ⟨y, hy, he⟩ | ⟨he, _, hsn⟩
+  · by_cases hk : (demanded d y (ci.h y)).kind = .ok
+    · obtain ⟨e, _, hst, _⟩ := demanded_kind_ok hk
+      have hok : o.res = .ok := by rw [hr]; simp only [io, obsOf, he, hk, resOf]
+      have := optCeq_of_optJEq (hP.1 hok y hy e)
+      simp only [io, obsOf, he, hst] at hs
+      rw [this] at hs; cases hs
+    · obtain ⟨hst, _⟩ := demanded_kind_not_ok hk
+      have hnok : o.res ≠ .ok := by
+        rw [hr]; simp only [io, obsOf, he]
+        intro hh; exact hk (resOf_eq_ok hh)
+      have := hP.2 hnok
+      simp only [io, obsOf, he, hst, this] at hs
+      cases hs
+  · rw [hsn, (io_of_invalid he).2.2.2.1] at hs
+    cases hs
+
+/-- structured_equals_output_json_with_defaults -/
+theorem sound_scDiffers (d : ToolD) (ci : CallIn) (o : Obs)
+    (h : monitor d ci o = some .scDiffers) : ¬ P_structured_equals d ci o := by
+  rcases monitor_fires h with ⟨_, hc | hc⟩ | ⟨hc, _⟩ | ⟨_, _, hd | hc⟩
+  · cases hc
+  · cases hc
+  · cases hc
+  · exact hd.elim
+  · obtain ⟨_, hn, h1, h2⟩ := hc
+    exact sc_mismatch (result_side hn) h1 h2
+
+/-- result_carries_exact_integers -/
+theorem sound_carryExact (d : ToolD) (ci : CallIn) (o : Obs) (p : String) (a b : Dec)
+    (h : monitor d ci o = some (.carryExact p a b)) : ¬ P_structured_equals d ci o := by
+  rcases monitor_fires h with ⟨_, hc | hc⟩ | ⟨hc, _⟩ | ⟨_, _, hd | hc⟩
+  · cases hc
+  · cases hc
+  · cases hc
+  · obtain ⟨_, h1, h2, h3, _⟩ := hd
+    refine sc_mismatch ?_ (h1.trans h2.symm) h3
+    rcases ideal_cases d ci with hv | ⟨_, he⟩
+    · exact .inl hv
+    · have := (io_of_invalid he).2.2.1
+      rw [h2] at this; cases this
+  · exact hc.elim
+
+/-- text_fallback_iff_no_content -/
+theorem sound_contentDiffers (d : ToolD) (ci : CallIn) (o : Obs)
+    (h : monitor d ci o = some .contentDiffers) : ¬ P_text_fallback d ci o := by
+  rcases monitor_fires h with ⟨_, hc | hc⟩ | ⟨hc, _⟩ | ⟨_, _, hd | hc⟩
+  · cases hc
+  · cases hc
+  · cases hc
+  · exact hd.elim
+  · intro hP
+    obtain ⟨_, hn, h1, h2, h3⟩ := hc
+    rcases result_side hn with ⟨y, hy, he⟩ | ⟨he, _⟩
+    · have hk : (demanded d y (ci.h y)).kind = .ok := by
+        simp only [io, obsOf, he] at h2
+        exact resOf_eq_ok h2
+      obtain ⟨e, _, _, hct⟩ := demanded_kind_ok hk
+      apply h3
+      rw [hP (h1.trans h2) y hy e]
+      simp only [io, obsOf, he, hct]
+    · have := (io_of_invalid he).2.2.1
+      rw [h2] at this; cases this
+
+theorem demanded_nilPtr (d : ToolD) (y : JVal) (r : HRet) (h : r.out = .nilPtr) :
+    demanded d y { r with out := .json (zeroValue d) } = demanded d y r := by
+  unfold demanded
+  simp only [h, handlerJson]
+
+/-- nil_pointer_output_uses_zero_value -/
+theorem sound_nilPtr (d : ToolD) (ci : CallIn) (o : Obs) (hsc : ci.Scripted)
+    (h : monitor d ci o = some .nilPtr) : ¬ P_nil_pointer_zero d ci o := by
+  rcases monitor_fires h with ⟨_, hc | hc⟩ | ⟨hc, _⟩ | ⟨_, _, hd | hc⟩
+  · cases hc
+  · cases hc
+  · cases hc
+  · exact hd.elim
+  · intro hP
+    obtain ⟨_, hn, h1, h2⟩ := hc
+    rcases result_side hn with ⟨y, hy, he⟩ | ⟨he, hr, hs⟩
+    · have hout : (ci.h y).out = .nilPtr := by
+        rw [hsc y]
+        cases ho : (ci.h .null).out <;> simp [ho, isNilPtr] at h1 ⊢
+      obtain ⟨p1, p2⟩ := hP y hy hout
+      rw [demanded_nilPtr d y (ci.h y) hout] at p1 p2
+      rcases h2 with h2 | h2
+      · apply h2; simp only [io, obsOf, he]; exact p1
+      · have := optCeq_of_optJEq p2
+        simp only [io, obsOf, he] at h2
+        rw [this] at h2; cases h2
+    · obtain ⟨_, _, q1, q2, _⟩ := io_of_invalid he
+      rcases h2 with h2 | h2
+      · exact h2 (hr.trans q1.symm)
+      · rw [hs, q2] at h2; cases h2
+
+/-! ## the whole property, and the catch-all clause -/
+
+/-- The wrapper's contract on the content of errors (not C16's text): a tool error carries exactly one text
+block, the error message; a protocol error carries no result. -/
+def P_error_content (o : Obs) : Prop := (o.res = .toolerr → o.content = [.err]) ∧ (o.res = .rpcerr → o.content = [])
+
+/-- everything C16 (and the wrapper's error contract) says about one call -/
+structure P_C16 (d : ToolD) (ci : CallIn) (o : Obs) : Prop where
+  no_crash : P_no_crash o
+  success_has_structured : P_success_has_structured d o
+  invoked_only_if_valid : P_invoked_only_if_valid d ci o
+  valid_is_invoked : P_valid_is_invoked d ci o
+  receives_exactly : P_receives_exactly d ci o
+  invalid_gives_tool_error : P_invalid_gives_tool_error d ci o
+  invalid_output_is_error : P_invalid_output_is_error d ci o
+  valid_output_succeeds : P_valid_output_succeeds d ci o
+  structured_equals : P_structured_equals d ci o
+  text_fallback : P_text_fallback d ci o
+  error_kinds : P_error_kinds d ci o
+  error_content : P_error_content o
+
+theorem demanded_not_ok_content {d : ToolD} {y : JVal} {r : HRet} :
+    ((demanded d y r).kind = .rpcError → (demanded d y r).content = []) ∧
+    ((demanded d y r).kind = .toolError → (demanded d y r).content = [.errText]) := by
+  unfold demanded
+  cases he : r.err with
+  | some e => cases e <;> simp
+  | none =>
+    simp only []
+    cases hj : handlerJson d r.out with
+    | none => simp
+    | some j =>
+      simp only []
+      cases ho : outputOk d j <;> simp
+
+/-- **the predicates determine the observation**: an observation that satisfies all of them is the ideal
+one (in every component the driver compares) -/
+theorem complete (d : ToolD) (ci : CallIn) (o : Obs) (hP : P_C16 d ci o) : sameObs o (io d ci) = true := by
+  simp only [sameObs, Bool.and_eq_true, beq_iff_eq]
+  rcases ideal_cases d ci with ⟨y, hy, he⟩ | ⟨hn, he⟩
+  · obtain ⟨i1, i2⟩ := io_of_valid he
+    have hinv : o.inv = some true := hP.valid_is_invoked ⟨y, hy⟩
+    obtain ⟨x, y', hx, hy', hj⟩ := hP.receives_exactly.1 hinv
+    have := HandlerInput_unique hy hy'
+    subst this
+    have hseen : optCeq o.seen (io d ci).seen = true := by rw [hx, i2]; exact ceq_of_JEq hj
+    by_cases hk : (demanded d y (ci.h y)).kind = .ok
+    · obtain ⟨e, ho, hst, hct⟩ := demanded_kind_ok hk
+      have hres : o.res = .ok := hP.valid_output_succeeds y hy e ho
+      refine ⟨⟨⟨⟨hinv.trans i1.symm, hseen⟩, ?_⟩, ?_⟩, ?_⟩
+      · simp only [io, obsOf, he, hk, resOf, hres]
+      · simp only [io, obsOf, he, hst]
+        exact optCeq_of_optJEq (hP.structured_equals.1 hres y hy e)
+      · simp only [io, obsOf, he, hct]
+        exact hP.text_fallback hres y hy e
+    · obtain ⟨hst, hcases⟩ := demanded_kind_not_ok hk
+      obtain ⟨p1, p2, p3⟩ := hP.error_kinds y hy
+      obtain ⟨c1, c2⟩ := @demanded_not_ok_content d y (ci.h y)
+      have hres : o.res = resOf (demanded d y (ci.h y)).kind ∧ o.res ≠ .ok := by
+        rcases hcases with ⟨e, k⟩ | ⟨e, k⟩ | ⟨e, k, j, hj, ho⟩
+        · rw [k, p1 e]; exact ⟨rfl, by simp⟩
+        · rw [k, p2 e]; exact ⟨rfl, by simp⟩
+        · rw [k, p3 e j hj ho]; exact ⟨rfl, by simp⟩
+      refine ⟨⟨⟨⟨hinv.trans i1.symm, hseen⟩, ?_⟩, ?_⟩, ?_⟩
+      · simp only [io, obsOf, he]; exact hres.1
+      · simp only [io, obsOf, he, hst, hP.structured_equals.2 hres.2, optCeq]
+      · simp only [io, obsOf, he]
+        cases hkk : (demanded d y (ci.h y)).kind with
+        | ok => exact absurd hkk hk
+        | rpcError =>
+          rw [c1 hkk]
+          exact hP.error_content.2 (by rw [hres.1, hkk]; rfl)
+        | toolError =>
+          rw [c2 hkk]
+          exact hP.error_content.1 (by rw [hres.1, hkk]; rfl)
+  · obtain ⟨i1, i2, i3, i4, i5⟩ := io_of_invalid he
+    have hinv : o.inv = some false := by
+      by_cases hh : o.inv = some false
+      · exact hh
+      · exact absurd (hP.invoked_only_if_valid hh) hn
+    obtain ⟨q1, _, q3⟩ := hP.invalid_gives_tool_error hn
+    refine ⟨⟨⟨⟨hinv.trans i1.symm, ?_⟩, q1.trans i3.symm⟩, ?_⟩, ?_⟩
+    · rw [hP.receives_exactly.2 hinv, i2]; rfl
+    · rw [q3, i4]; rfl
+    · rw [i5]; exact hP.error_content.1 q1
+
+/-- **monitor_sound.** Whatever clause the monitor prints, the observation violates the property: no
+observation that satisfies every predicate above is ever rejected. -/
+theorem monitor_sound (d : ToolD) (ci : CallIn) (o : Obs) (c : Clause) (h : monitor d ci o = some c) :
+    ¬ P_C16 d ci o := by
+  intro hP
+  rcases monitor_fires h with ⟨hp, _⟩ | ⟨_, h1, h2, h3⟩ | ⟨_, hne, _⟩
+  · exact hP.no_crash hp
+  · have := hP.success_has_structured h1 h2
+    rw [h3] at this; cases this
+  · rw [complete d ci o hP] at hne; cases hne
+
+/-- C16/F9 (the observation of the unrepaired wrapper where it differs from the exact one): some clause of
+the property is violated -/
+theorem sound_f9 (d : ToolD) (ci : CallIn) (o : Obs) (h : monitor d ci o = some .f9) : ¬ P_C16 d ci o :=
+  monitor_sound d ci o _ h
+
+/-! ## what tools/list advertises -/
+
+/-- the advertised input schema is readable and is the tool's own -/
+def P_published_in (ownI : Schema) (pi : Option Schema) : Prop := ∃ p, pi = some p ∧ sameSchema p ownI = true
+
+/-- the advertised output schema is the tool's own (none advertised iff the tool has none) -/
+def P_published_out (ownO : Option Schema) (po : Option (Option Schema)) : Prop :=
+  (po = some none ∧ ownO = none) ∨ ∃ p o, po = some (some p) ∧ ownO = some o ∧ sameSchema p o = true
+
+theorem sound_pubIn (ownI : Schema) (ownO : Option Schema) (pi : Option Schema) (po : Option (Option Schema))
+    (h : pubClause ownI ownO pi po = some .pubIn) : ¬ P_published_in ownI pi := by
+  rintro ⟨p, rfl, hs⟩
+  have hI : pubInOk ownI (some p) = true := hs
+  unfold pubClause at h
+  cases hO : pubOutOk ownO po <;> simp [hI, hO] at h
+
+theorem sound_pubOut (ownI : Schema) (ownO : Option Schema) (pi : Option Schema) (po : Option (Option Schema))
+    (h : pubClause ownI ownO pi po = some .pubOut) : ¬ P_published_out ownO po := by
+  intro hP
+  have hO : pubOutOk ownO po = true := by
+    rcases hP with ⟨rfl, rfl⟩ | ⟨p, o, rfl, rfl, hs⟩
+    · rfl
+    · exact hs
+  unfold pubClause at h
+  cases hI : pubInOk ownI pi <;> simp [hI, hO] at h
+
 end TypedTool
